@@ -371,9 +371,8 @@ def path_parts(t):
 
 
 def _cat_parts(t):
-    if t[0] == 'cat':
-        return list(t[1])
-    return [t]
+    parts = list(t[1]) if t[0] == 'cat' else [t]
+    return [p[1] if p[0] == 'str' else p for p in parts]
 
 
 def same_path(a, b) -> bool:
